@@ -9,8 +9,9 @@ import (
 )
 
 // Value is one of:
-//   *Term (bool, integer, float scalars)   *Str   Ptr   Agg   Slice   *MapObj
-//   Iface   *Closure   *ChanObj   Tuple   *Opaque
+//
+//	*Term (bool, integer, float scalars)   *Str   Ptr   Agg   Slice   *MapObj
+//	Iface   *Closure   *ChanObj   Tuple   *Opaque
 type Value interface{}
 
 type Str struct {
